@@ -24,6 +24,10 @@ type crashFS struct {
 }
 
 func (c *crashFS) point() {
+	if c.armed && c.crashed {
+		// the process is dead: every other thread dies at its next file-system call
+		panic(vCrashSignal{})
+	}
 	if !c.armed || c.crashed {
 		return
 	}
